@@ -269,6 +269,24 @@ def fam_edge_inputs():
     return out
 
 
+def fam_partial_overrides():
+    """nodes of two/three operators where only SOME operators carry per-node values (and nodes sharing one template
+    object next to a node with its own values): every serialisation must keep exactly those values"""
+    out = []
+    for variant in range(4):
+        fp = FP()
+        ops = {'rpo': op_rpo(fp), 'sg': op_sigmoid_alg(fp, 'sg', m='m', v='a'), 'li': op_leaky(fp)}
+        which = [['rpo'], ['sg'], ['rpo', 'sg'], []][variant]
+        nodes = {'p': NodeSpec(['rpo', 'sg'], _node_overrides(fp, ops, which)),
+                 'q': NodeSpec(['rpo', 'sg'], _node_overrides(fp, ops, ['sg'] if variant % 2 == 0 else ['rpo'])),
+                 'r': NodeSpec(['li'], _node_overrides(fp, ops, ['li']))}
+        edges = [EdgeSpec('p/sg/m', 'q/rpo/r_in', fp()), EdgeSpec('q/sg/m', 'r/li/u', fp()),
+                 EdgeSpec('r/li/x', 'p/rpo/r_in', fp())]
+        out.append((f"FPO:{variant}", ModelSpec('m', ops, nodes, edges,
+                                                note=f"per-node values on operators {which} of p only")))
+    return out
+
+
 def fam_equal_values():
     """nodes sharing one NodeTemplate object / all-equal parameter values (constant-vector collapse path)"""
     out = []
